@@ -48,6 +48,8 @@ func (sp ByteSlicePool) Get(capacity int) []byte {
 		return make([]byte, 0, capacity)
 	}
 	buf := bp.([]byte)
+	// Zero the entire backing array, and not just the length set by the previous user, as Resize can expose everything up to the capacity
+	buf = buf[:cap(buf)]
 	// This will be optimized by the compiler
 	for i := range buf {
 		buf[i] = 0
